@@ -207,4 +207,53 @@ M.append({"name": "N: const parameter D renamed to N in lib.rs", "edits": [
     ("re", r"\bD\b", "N", "lib.rs"),
 ], "expect": dict(ALLP)})
 
+M.append({"name": "N: jacobian assembled in a private helper", "edits": [
+    (SAM, """    let jacobian = (u_trop.ref_div(u))
+        .powf(&const_builder.from_f64(tropical_subgraph_table.dimension as f64 / 2.0))
+        * (v_trop.ref_div(&v))
+            .powf(&const_builder.from_f64(tropical_subgraph_table.tropical_graph.dod))
+        * const_builder.from_f64(tropical_subgraph_table.cached_factor);
+""", """    let jacobian = weight_of(&u_trop, u, &v_trop, &v, tropical_subgraph_table, &const_builder);
+"""),
+    (SAM, "struct PermatuhedralSamplingResult<T: MomTropFloat> {", """fn weight_of<T: MomTropFloat>(ut: &T, u: &T, vt: &T, v: &T, table: &TropicalSubgraphTable, b: &T) -> T {
+    let half_d = b.from_f64(table.dimension as f64 / 2.0);
+    let dod = b.from_f64(table.tropical_graph.dod);
+    (ut.ref_div(u)).powf(&half_d) * (vt.ref_div(v)).powf(&dod) * b.from_f64(table.cached_factor)
+}
+
+struct PermatuhedralSamplingResult<T: MomTropFloat> {"""),
+], "expect": dict(ALLP)})
+M.append({"name": "N: independent statements of sample reordered", "edits": [
+    (SAM, """    let q_vectors = sample_q_vectors(&mut mimic_rng, tropical_subgraph_table.dimension, num_loops);
+    let u_vectors = compute_u_vectors(&permatuhedral_sample.x, loop_signature, &edge_shifts);
+""", """    let u_vectors = compute_u_vectors(&permatuhedral_sample.x, loop_signature, &edge_shifts);
+    let q_vectors = sample_q_vectors(&mut mimic_rng, tropical_subgraph_table.dimension, num_loops);
+"""),
+], "expect": dict(ALLP)})
+M.append({"name": "N: u vectors with explicit loops instead of fold", "edits": [
+    (SAM, """    (0..num_loops)
+        .map(|l| {
+            (0..num_edges).fold(
+                Vector::new_from_num(const_builder),
+                |acc: Vector<T, D>, e| {
+                    &acc + &(edge_shifts[e]
+                        * (const_builder.from_isize(signature_marix[e][l]) * &x_vec[e]))
+                },
+            )
+        })
+        .collect_vec()
+}""", """    let mut res = Vec::with_capacity(num_loops);
+    for l in 0..num_loops {
+        let mut acc: Vector<T, D> = Vector::new_from_num(const_builder);
+        for e in 0..num_edges {
+            acc += edge_shifts[e] * (const_builder.from_isize(signature_marix[e][l]) * &x_vec[e]);
+        }
+        res.push(acc);
+    }
+    res
+}"""),
+], "expect": dict(C09=None, C10=None, C08=None, C11=None, C17=None, C19=None)})
+
+mut("C13 components stored in reverse order", [(SAM, "            vec[i] = gaussians.next().unwrap_or_else(|| unreachable!());", "            vec[D - 1 - i] = gaussians.next().unwrap_or_else(|| unreachable!());")], C13="C13-c")
+
 MUTATIONS = M
